@@ -119,7 +119,15 @@ def wire_form(prog: Program, cls) -> set[str]:
     forms = set()
     if f is None:
         return {"abstract"}
-    for p, r in P.returns(P.paths_of(prog, f)):
+    def alternatives(tm):
+        if tm[0] == "ifexp":
+            return alternatives(tm[2]) + alternatives(tm[3])
+        return [tm]
+
+    rets = []
+    for p, r0 in P.returns(P.paths_of(prog, f)):
+        rets += [(p, a) for a in alternatives(r0)]
+    for p, r in rets:
         val = ("param", "val")
         if r == val:
             forms.add("passthrough")
@@ -143,12 +151,24 @@ def wire_form(prog: Program, cls) -> set[str]:
             forms.add("list-conv")
         elif r[0] == "comp" and r[1] == "dict":
             forms.add("dict-conv")
+        elif r[0] == "list" and not any(e[0] == "star" for e in r[1]):
+            forms.add("list-conv")  # filled by an explicit loop
+        elif r[0] == "dict" and all(k is not None for k, _ in r[1]):
+            forms.add("dict-conv")
+        elif r[0] == "comp" and r[1] in ("set", "gen"):
+            forms.add("bad:" + {"set": "set", "gen": "generator"}[r[1]])
+        elif r[0] in ("tuple", "set"):
+            forms.add("bad:" + r[0])
+        elif r[0] == "call" and T.refname(r[1]) in ("builtins.tuple", "builtins.set", "builtins.frozenset", "builtins.iter", "collections.deque"):
+            forms.add("bad:" + T.refname(r[1]).rsplit(".", 1)[-1])
+        elif r[0] == "call" and r[1] in (C.sattr("origin"), C.sattr("t")) and r[2] and r[2][0][0] == "comp":
+            forms.add("bad:origin(...) of converted members")
         elif r[0] == "call" and r[1][0] == "elem":
             forms.add("member")
         elif r[0] == "call" and r[1] == C.sattr("resolved"):
             forms.add("delegate")
         else:
-            forms.add("other:" + T.show(r)[:60])
+            forms.add("unknown:" + T.show(r)[:60])
     return forms
 
 
@@ -216,6 +236,9 @@ def r01_2(prog: Program, rep: Report, mrows, urows, pe):
             continue
         w = wire_form(prog, rm.routine)
         f = reader_features(prog, ru.routine)
+        if any(x.startswith("unknown:") for x in w):
+            rep.undecided("R01.2", "dispatch", rm.routine.loc, f"{cls}: wire form of {rm.routine.name} not in the idiom set: {sorted(w)}", detail=cls)
+            continue
         ok = w <= wires and need <= f and not (forbid & f)
         rep.check(
             ok, "R01.2", "dispatch", rm.routine.loc,
